@@ -20,7 +20,7 @@ class Contract:
     def __init__(self, target, serves=(), types=None, returns=None, requires=(), ensures=(), raises=None,
                  loops=None, modifies=(), ghosts=None, on_call=None, examples=None, variant='', trusted=False,
                  locals=None, self_fields=None, notes='', assumes=(), lemmas=(), opaque_loops=(), fix=None, params=None,
-                 rebinds=(), allocates=False, new_graph_schema='mol', opaque=(), abstract=(), heap_invariants=(), callee_clauses=None, returns_fresh=False, wf_all_graphs=False):
+                 rebinds=(), allocates=False, new_graph_schema='mol', opaque=(), abstract=(), heap_invariants=(), callee_clauses=None, returns_fresh=False, wf_all_graphs=False, after=None):
         self.target = target          # 'cgsmiles.resolve:compatible' / 'cgsmiles.resolve:MoleculeResolver.resolve'
         self.variant = variant
         self.serves = list(serves)
@@ -46,6 +46,7 @@ class Contract:
         self.rebinds = list(rebinds)          # 'self.x' fields the method re-binds
         self.allocates = allocates            # creates graphs (heap must be havoc'd even without a modifies clause)
         self.new_graph_schema = new_graph_schema
+        self.after = dict(after or {})        # statement source text -> lemmas proved (then available) right after that statement
         self.wf_all_graphs = wf_all_graphs    # assume well-formedness of every allocated graph (graphs reached via dicts / attributes)
         self.returns_fresh = returns_fresh    # the returned graph is newly allocated by the call
         self.callee_clauses = dict(callee_clauses or {})   # callee name -> substrings selecting which of its ensures are used here
